@@ -4,7 +4,7 @@ def run(ctx):
     return standard(ctx,
         props=[("Props.C18", ["c18_escape_safe", "c18_hidden_input", "c18_old_input_refuted"])],
         harness=("TestVerif_C18", ["kmd/common.go", "kmd/creds.go", "kmd/c18.go"]),
-        obl=("Obl_C18.v", ["c18_raw_sinks", "c18_login_input_escaped"]),
+        obl=("Obl_C18.v", ["c18_raw_sinks", "c18_login_input_escaped", "c18_direct_writes"]),
         cases=("CasesC18.v", [("c18_mismatches", "VALUE attribute of the hidden INPUT in served pages = html_escape(ensureHTMLSafeLoginDestination(dest))")], "CasesC18.idx"),
         trusted=["html/template contextual auto-escaping of ordinary template fields (exercised by canaries, not modelled)",
                  "golang.org/x/net/html tokenizer as the HTML5 parser of the oracle",
